@@ -247,12 +247,81 @@ def check_L(part, job):
     part.nontriv(L)
 
 
+def object_history(part, job):
+    """
+    one SHT object is reused for many calls and owns scratch arrays: every sequence of up to `depth` calls over a small
+    alphabet (point-wise evaluation at repeated / different angles, analysis, synthesis, pure-Python synthesis, power
+    spectrum; real and complex data) must give, at every step, the answer a fresh object gives for that call alone
+    """
+    from chmpy.shape.sht import SHT
+
+    L, depth = job
+    nc, nr = (L + 1) ** 2, (L + 1) * (L + 2) // 2
+    cc = dense(nc, 0)
+    cr = dense(nr, 1)
+    cr[: L + 1] = cr[: L + 1].real
+    fresh = SHT(L)
+    fc = fresh.synthesis(cc)
+    fr = fresh.synthesis(cr)
+    th1, th2, ph1, ph2 = 0.7, 1.9, 0.3, 2.1
+    calls = {
+        "eval_c(th1,ph1)": lambda s: s.evaluate_at_points(cc, th1, ph1),
+        "eval_c(th1,ph2)": lambda s: s.evaluate_at_points(cc, th1, ph2),
+        "eval_r(th1,ph1)": lambda s: s.evaluate_at_points(cr, th1, ph1),
+        "eval_c(th2,ph1)": lambda s: s.evaluate_at_points(cc, th2, ph1),
+        "analysis_c": lambda s: s.analysis(fc),
+        "analysis_r": lambda s: s.analysis(fr),
+        "synthesis_c": lambda s: s.synthesis(cc),
+        "synthesis_r": lambda s: s.synthesis(cr),
+        "synthesis_py_r": lambda s: s.synthesis_pure_python(cr),
+        "power_r": lambda s: s.power_spectrum(cr),
+        "power_c": lambda s: s.power_spectrum(cc),
+    }
+    names = list(calls)
+    want = {}
+    for n in names:
+        want[n] = np.array(calls[n](SHT(L)), copy=True)
+    # the references themselves are anchored: point-wise values against scipy's harmonics
+    for n, (c_, th, ph, real) in {"eval_c(th1,ph1)": (cc, th1, ph1, False), "eval_r(th1,ph1)": (cr, th1, ph1, True)}.items():
+        ref = ylm.synth_real(L, c_, np.array([th]), np.array([ph]))[0] if real else ylm.synth_complex(L, c_, np.array([th]), np.array([ph]))[0]
+        if abs(complex(want[n]) - complex(ref)) > tol(L) * 20:
+            part.fail("object-history:reference", "fresh-object answer of %s differs from the harmonics reference" % n, {"kind": "objhist", "L": L, "depth": depth})
+            return
+    seen = set()
+    for D in range(2, depth + 1):
+        for hist in itertools.product(range(len(names)), repeat=D):
+            part.ev()
+            s = SHT(L)
+            held = []
+            for step, k in enumerate(hist):
+                part.tr()
+                got = calls[names[k]](s)
+                if np.abs(np.asarray(got) - want[names[k]]).max() > tol(L) * 20:
+                    part.fail("object-history:%s-after-%s" % (names[k].split("(")[0], names[hist[step - 1]].split("(")[0] if step else "construction"),
+                              "L=%d: %s on a reused SHT object returns another answer than on a fresh object after the calls %s"
+                              % (L, names[k], [names[j] for j in hist[:step]]), {"kind": "objhist", "L": L, "depth": depth})
+                    break
+                for (g0, c0, n0) in held:
+                    if isinstance(g0, np.ndarray) and not np.array_equal(g0, c0):
+                        part.fail("object-history:result-aliasing", "L=%d: the array returned by %s changed after a later call (%s)" % (L, n0, names[k]),
+                                  {"kind": "objhist", "L": L, "depth": depth})
+                        held = []
+                        break
+                held.append((got, np.array(got, copy=True), names[k]))
+            seen.add(hist[-2:])
+    part.nstates(len(seen))
+    part.outcome(("objhist", L))
+
+
 def run(ctx):
     Lb = 32 if ctx.thorough else 16
     Lpy = 12 if ctx.thorough else 8
     jobs = [(L, Lb, Lpy) for L in range(0, 65)]
     jobs.sort(key=lambda j: -(j[0] ** 2 if j[0] <= Lb else j[0]))
     ctx.pmap(check_L, jobs)
+    hjobs = [(3, 3), (4, 3 if ctx.thorough else 2), (8, 2)]
+    ctx.pmap(object_history, hjobs)
+    ctx.bounds["object_histories"] = "all sequences of <= 3 calls at L=3 (thorough also L=4) and <= 2 calls at L in {4,8} over 11 methods on one reused SHT object"
     ctx.rule = ("every L in 0..64; for L <= %d every basis vector e_(l,m) and i*e_(l,m) of the complex and of the real (m-major) layout through analysis and "
                 "synthesis; above, the channels l in {0,1,L/2,L-1,L} x m in {-l,-1,0,1,l} and two dense vectors; pure-Python paths and point-wise "
                 "evaluation for every basis vector with L <= %d and dense vectors at L in {16,33,64}; linearity, Parseval (independent quadrature), power "
@@ -264,4 +333,7 @@ def run(ctx):
 
 
 def replay(ctx, case):
+    if case.get("kind") == "objhist":
+        object_history(ctx, (case["L"], case["depth"]))
+        return
     check_L(ctx, (case["L"], case["Lb"], case["Lpy"]))
